@@ -18,6 +18,8 @@ func checkC02(p *Prog, r *Report) {
 	checkSoftCheckComplete(p, r, "C02")
 	r.rule("C02.plumbing / C02.fresh-linkage (shared with C01/C06): UnmarshalResource, through which every primary and included resource comes back, sets the id as decoded, each attribute from UnmarshalToType's result and each relationship from its decoded linkage, whose decode target is fresh per relationship")
 	checkUnmarshalPlumbing(p, r, "C02")
+	r.rule("C02.reldata-key (shared with C01/C04): MarshalResource selects the relationships whose linkage is written with relData[<the resource's own type name>]")
+	checkRelDataKey(p, r, "C02")
 	r.rule("C02.kind-dispatch: every kind of primary data MarshalDocument accepts (the case types of its type switch, and nil) has a branch in UnmarshalDocument that stores a value of that kind into Data; the branch is selected by the first byte that the corresponding marshaler produces ('{' for json.Marshal of a map, '[' for a slice or the literal [], the literal null)")
 	r.rule("R5 tag tables: the members MarshalDocument writes that carry document state (data, errors, included, meta) are exactly the json tags of payloadSkeleton; Error.MarshalJSON writes every field of Error under that field's own json tag")
 	r.rule("C02.order (counted-loop shape): MarshalCollection, UnmarshalCollection, the included loops of MarshalDocument and UnmarshalDocument each run an index 0,1,2,… up to the length of their source, emit exactly one output element per iteration (append / Add, dominating the back edge), computed from the source element at that very index, and are left early only by returning an error; Resources.Add appends at the end; At/Len of the shipped collections are views of one underlying list")
